@@ -237,4 +237,51 @@ def tables_rows_read(out, notes):
                  "hard_exit, loose_exit, begin_block, merged rows / wait_for_response, split_by_value, action rows")
 
 
-GENERATORS = [tables_c01, tables_rows_read]
+def tables_names(out, notes):
+    """explicit_names_claimed: does an explicit category name claim its name (the repair of the finding category-name-clash)?
+    Behavioural probe on SwitchRouter.add_choice: (1) an unnamed test 'yes' (its category gets the invented name 'Yes'), then a
+    test 'yeah' with the explicit name 'Yes': one category with both tests (the invented category is re-used: false) or two
+    categories, the invented one renamed (true); (2) a test with the explicit name 'Other' (the default category's): re-targets the
+    default category (false) or is refused with a RapidProRouterError (true); (3) the same for 'No Response' on a router with a
+    timeout.  The three answers must agree; anything else is a Refuse."""
+    try:
+        from rpft.rapidpro.models.exceptions import RapidProRouterError
+        from rpft.rapidpro.models.routers import SwitchRouter
+
+        r1 = SwitchRouter("@input.text", wait_timeout=0)
+        r1.add_choice("@input.text", "has_any_word", ["yes"], None, "d1")
+        r1.add_choice("@input.text", "has_any_word", ["yeah"], "Yes", "d2")
+        cats = [(c.name, c.exit.destination_uuid) for c in r1.categories]
+        case_cats = [k.category_uuid for k in r1.cases]
+        if len(cats) == 1 and cats[0] == ("Yes", "d2") and case_cats[0] == case_cats[1]:
+            a1 = False
+        elif len(cats) == 2 and cats[0][1] == "d1" and cats[1] == ("Yes", "d2") and cats[0][0] != "Yes" and case_cats[0] != case_cats[1]:
+            a1 = True
+        else:
+            raise Refuse(f"explicit category name equal to an invented one: categories {cats!r}")
+
+        def reserved(name, timeout):
+            r = SwitchRouter("@input.text", wait_timeout=timeout)
+            try:
+                r.add_choice("@input.text", "has_any_word", ["x"], name, "d9")
+            except RapidProRouterError:
+                return True
+            target = r.default_category if name == "Other" else r.no_response_category
+            if r.categories == [] and target.exit.destination_uuid == "d9" and r.cases[0].category_uuid == target.uuid:
+                return False
+            raise Refuse(f"explicit category name {name!r}: categories {[(c.name, c.exit.destination_uuid) for c in r.get_categories()]!r}")
+
+        a2, a3 = reserved("Other", 0), reserved("No Response", 60)
+    except Refuse:
+        raise
+    except Exception as e:
+        raise Refuse(f"cannot probe SwitchRouter.add_choice on explicit category names: {type(e).__name__}: {e}")
+    if not (a1 == a2 == a3):
+        raise Refuse(f"explicit category names: invented-name clash claimed={a1}, 'Other' refused={a2}, 'No Response' refused={a3}: "
+                     "Comp/Compile.v has no mirror for a mixture")
+    out.append(f"Definition explicit_names_claimed : bool := {coq_bool(a1)}.")
+    notes.append("explicit_names_claimed: TABULATED by SwitchRouter.add_choice with an explicit category name equal to an invented name / "
+                 "'Other' / 'No Response'")
+
+
+GENERATORS = [tables_c01, tables_rows_read, tables_names]
